@@ -519,7 +519,8 @@ func notFromCacheOnPaths(c *km.Ctx, s *km.Sem, site ssa.Instruction, prof ssa.Va
 	if origin == nil {
 		// handed back by a loading helper (load, 500 on error, 503 when from the cache): every way the helper
 		// can have produced the value is a load whose fromCache result is false on that path
-		if cl0, _ := callRes(prof); cl0 != nil && km.CalleeFull(cl0.Common()) != load {
+		_, _, isFieldOfResult := km.FieldOfLoad(prof)
+		if cl0, _ := callRes(prof); (cl0 != nil && km.CalleeFull(cl0.Common()) != load) || isFieldOfResult {
 			st := c.F.At(site)
 			stopAt := func(cl *ssa.Call) bool { return km.CalleeFull(cl.Common()) == load }
 			okAll := len(st) > 0
